@@ -399,8 +399,19 @@ var entries = map[string]parseFn{
 		out, closeConn := asm.ReceiveRead(context.Background(), b, len(b))
 		return fmt.Sprintf("%v/%v", out, closeConn), nil
 	},
-	"AsTCPErrorPacket": func(b []byte) (any, error) { return nil, packet.AsTCPErrorPacket(b) },
-	"AsRTUErrorPacket": func(b []byte) (any, error) { return nil, packet.AsRTUErrorPacket(b) },
+	// the recognisers return an error only: "no error" is their decoded value (not an exception frame)
+	"AsTCPErrorPacket": func(b []byte) (any, error) {
+		if err := packet.AsTCPErrorPacket(b); err != nil {
+			return nil, err
+		}
+		return "not-an-exception-frame", nil
+	},
+	"AsRTUErrorPacket": func(b []byte) (any, error) {
+		if err := packet.AsRTUErrorPacket(b); err != nil {
+			return nil, err
+		}
+		return "not-an-exception-frame", nil
+	},
 }
 
 type refusingHandler struct{}
@@ -850,7 +861,7 @@ func sweepParseReq(w *writer, c *codecCase) {
 }
 
 func doParseAny(c *codecCase) Ev {
-	e := Ev{"op": "parseany", "entry": c.Entry, "frame": orEmpty(c.Frame), "outcome": "", "nilOnErr": true, "capDep": false, "panicMsg": ""}
+	e := Ev{"op": "parseany", "entry": c.Entry, "frame": orEmpty(c.Frame), "outcome": "", "nilOnErr": true, "nilOk": false, "capDep": false, "panicMsg": ""}
 	f, ok := entries[c.Entry]
 	if !ok {
 		e["outcome"] = "noentry"
@@ -863,6 +874,8 @@ func doParseAny(c *codecCase) Ev {
 	if r0.outcome == "err" {
 		e["nilOnErr"] = isNilValue(r0.v)
 	}
+	// "returns either a decoded value or an error": no error and no value is neither
+	e["nilOk"] = r0.outcome == "ok" && isNilValue(r0.v)
 	base := render(r0)
 	tails := [][]byte{}
 	if len(c.Tail) > 0 {
@@ -927,7 +940,7 @@ func fuzzParseAny(w *writer, c *codecCase, rng *rand.Rand) {
 			cc := codecCase{Entry: n, Frame: ints(in)}
 			e := doParseAny(&cc)
 			// only non-conforming outcomes and a thin sample are logged in full; the rest is counted
-			if e["outcome"] == "panic" || e["capDep"].(bool) || !e["nilOnErr"].(bool) || rng.Intn(50) == 0 {
+			if e["outcome"] == "panic" || e["capDep"].(bool) || !e["nilOnErr"].(bool) || e["nilOk"].(bool) || rng.Intn(50) == 0 {
 				w.emit(e)
 			}
 		}
